@@ -157,8 +157,8 @@ const mvh_class wl_mutex = { "mutex", M_NP, mutex_names, mutex_gen, mutex_run, 0
 /* ================================================================== */
 /* cond (C05)                                                          */
 /* ================================================================== */
-enum { C_SHAPE = Q_COMMON, C_NP, C_NC, C_CAP, C_K, C_NWAIT, C_ROUNDS, C_NPAR };
-static const char *const cond_names[] = { COMMON_NAMES, "shape", "np", "nc", "cap", "k", "nwaiters", "rounds" };
+enum { C_SHAPE = Q_COMMON, C_NP, C_NC, C_CAP, C_K, C_NWAIT, C_ROUNDS, C_SIGOUT, C_NPAR };
+static const char *const cond_names[] = { COMMON_NAMES, "shape", "np", "nc", "cap", "k", "nwaiters", "rounds", "signal_outside" };
 static myth_mutex_t cm; static myth_cond_t c_not_full, c_not_empty, c_gate;
 static long buf[8], bcount, bhead, btail;
 static int seen_item[4096];
@@ -166,13 +166,14 @@ static volatile int c_occ, gate_open, gate_waiting, gate_released, turn, void_fl
 static long consumed_total, produced_total;
 
 static void cond_gen(mvsim_rng *r, long *p, int tier) {
-  p[C_SHAPE] = mvh_range(r, 0, 3);
+  p[C_SHAPE] = mvh_range(r, 0, 4);
   p[C_NP] = mvh_range(r, 1, tier ? 6 : 4);
   p[C_NC] = mvh_range(r, 1, tier ? 6 : 4);
   p[C_CAP] = mvh_range(r, 1, 4);
   p[C_K] = mvh_range(r, 1, tier ? 6 : 3);
   p[C_NWAIT] = mvh_range(r, 1, tier ? 16 : 8);
   p[C_ROUNDS] = mvh_range(r, 1, tier ? 30 : 10);
+  p[C_SIGOUT] = mvh_chance(r, 500);   /* signal/broadcast after unlocking the mutex (legal idiom) */
   gen_common(r, p, 20);
 }
 #define ENTER_CS() do { c_occ++; MVH_CHECK(c_occ == 1, "C05-MUTEX-HELD", "thread is inside the monitor without holding the mutex exclusively (occupancy %d)", c_occ); } while (0)
@@ -192,8 +193,9 @@ static void *bb_producer(void *arg) {
     while (bcount == P[C_CAP]) cwait(&c_not_full);
     buf[btail] = t * items + i; btail = (btail + 1) % P[C_CAP]; bcount++; produced_total++;
     mvsim_user_point();
-    myth_cond_signal(&c_not_empty);
+    if (!P[C_SIGOUT]) myth_cond_signal(&c_not_empty);
     LEAVE_CS(); myth_mutex_unlock(&cm);
+    if (P[C_SIGOUT]) { mvsim_user_point(); myth_cond_signal(&c_not_empty); }
   }
   return (void *)(t + 1);
 }
@@ -207,8 +209,9 @@ static void *bb_consumer(void *arg) {
     MVH_CHECK(x >= 0 && x < 4096 && seen_item[x] == 0, "C05-ITEM", "item %ld consumed twice or never produced", x);
     seen_item[x] = 1;
     mvsim_user_point();
-    myth_cond_signal(&c_not_full);
+    if (!P[C_SIGOUT]) myth_cond_signal(&c_not_full);
     LEAVE_CS(); myth_mutex_unlock(&cm);
+    if (P[C_SIGOUT]) { mvsim_user_point(); myth_cond_signal(&c_not_full); }
   }
   return (void *)((long)arg + 1);
 }
@@ -228,8 +231,10 @@ static void *turn_thread(void *arg) {
     while (turn != me) cwait(&c_gate);
     turn = 1 - (int)me;
     YIELD(r * 13 + me);
-    if ((wl_mix(P[Q_SEED], r) >> 7) & 1) myth_cond_signal(&c_gate); else myth_cond_broadcast(&c_gate);
+    int use_signal = (int)((wl_mix(P[Q_SEED], r) >> 7) & 1);
+    if (!P[C_SIGOUT]) { if (use_signal) myth_cond_signal(&c_gate); else myth_cond_broadcast(&c_gate); }
     LEAVE_CS(); myth_mutex_unlock(&cm);
+    if (P[C_SIGOUT]) { mvsim_user_point(); if (use_signal) myth_cond_signal(&c_gate); else myth_cond_broadcast(&c_gate); }
   }
   return (void *)(me + 1);
 }
@@ -239,12 +244,32 @@ static void *void_waiter(void *arg) {
   LEAVE_CS(); myth_mutex_unlock(&cm);
   return (void *)((long)arg + 1);
 }
+/* shape 4: counting semaphore; N waiters block, N posters add a token each and signal */
+static volatile long sem_count, sem_taken, sem_blocked;
+static void *sem_waiter(void *arg) {
+  YIELD((long)arg * 37);
+  myth_mutex_lock(&cm); ENTER_CS();
+  while (sem_count == 0) { sem_blocked++; cwait(&c_gate); sem_blocked--; }
+  sem_count--; sem_taken++;
+  LEAVE_CS(); myth_mutex_unlock(&cm);
+  return (void *)((long)arg + 1);
+}
+static void *sem_poster(void *arg) {
+  YIELD((long)arg * 41);
+  myth_mutex_lock(&cm); ENTER_CS();
+  sem_count++;
+  if (!P[C_SIGOUT]) myth_cond_signal(&c_gate);
+  LEAVE_CS(); myth_mutex_unlock(&cm);
+  if (P[C_SIGOUT]) { mvsim_user_point(); myth_cond_signal(&c_gate); }
+  return (void *)((long)arg + 1);
+}
 static void *void_setter(void *arg) {
   for (int i = 0; i < 3; i++) YIELD(i + 900);
   myth_mutex_lock(&cm); ENTER_CS();
   void_flag = 1;
-  myth_cond_signal(&c_gate);
+  if (!P[C_SIGOUT]) myth_cond_signal(&c_gate);
   LEAVE_CS(); myth_mutex_unlock(&cm);
+  if (P[C_SIGOUT]) { mvsim_user_point(); myth_cond_signal(&c_gate); }
   return (void *)((long)arg + 1);
 }
 
@@ -271,8 +296,9 @@ static void cond_run(const long *p, mvsim_runcfg *cfg, mvsim_runstats *st) {
       for (;;) {   /* opener: wait (politely) until all waiters are inside wait */
         myth_mutex_lock(&cm); ENTER_CS();
         int all = gate_waiting == n;
-        if (all) { gate_open = 1; if (n == 1 && (p[Q_SEED] & 1)) myth_cond_signal(&c_gate); else myth_cond_broadcast(&c_gate); }
+        if (all) { gate_open = 1; if (!p[C_SIGOUT]) { if (n == 1 && (p[Q_SEED] & 1)) myth_cond_signal(&c_gate); else myth_cond_broadcast(&c_gate); } }
         LEAVE_CS(); myth_mutex_unlock(&cm);
+        if (all && p[C_SIGOUT]) { mvsim_user_point(); if (n == 1 && (p[Q_SEED] & 1)) myth_cond_signal(&c_gate); else myth_cond_broadcast(&c_gate); }
         if (all) break;
         myth_yield();
       }
@@ -284,6 +310,17 @@ static void cond_run(const long *p, mvsim_runcfg *cfg, mvsim_runstats *st) {
       spawn_all(2, turn_thread);
       join_all(2);
       break;
+    case 4: {
+      int n = (int)p[C_NWAIT]; if (n > 30) n = 30;
+      sem_count = sem_taken = sem_blocked = 0;
+      for (long i = 0; i < n; i++) { TH[i] = myth_create(sem_waiter, (void *)i); YIELD(i + 50); }
+      /* usually let the waiters block first, so that every signal finds sleepers */
+      if (wl_mix(P[Q_SEED], 4242) % 4) for (int k = 0; k < 3 * n; k++) { myth_mutex_lock(&cm); int b = sem_blocked == n; myth_mutex_unlock(&cm); if (b) break; myth_yield(); }
+      for (long i = n; i < 2 * n; i++) { TH[i] = myth_create(sem_poster, (void *)i); YIELD(i + 60); }
+      join_all(2 * n);
+      MVH_CHECK(sem_taken == n && sem_count == 0, "C05-COUNT", "semaphore: %ld tokens taken, %ld left, expected %d taken", (long)sem_taken, (long)sem_count, n);
+      break;
+    }
     default: {
       /* signals into the void must have no effect */
       for (long i = 0; i < 1 + p[C_K]; i++) { if (i & 1) myth_cond_broadcast(&c_gate); else myth_cond_signal(&c_gate); mvsim_user_point(); }
